@@ -221,6 +221,11 @@ def main():
             })
         else:
             m["not_applicable"].append({"property_id": pid, "reason": PENDING})
+    m["notes"] = ("Lean 4 proofs about a hand-written executable model of scikit-criteria + differential correspondence against /repo in-process "
+                  "+ tables regenerated from the source on every run. DESIGN.md section 16 describes the framework as built; known_findings.json "
+                  "lists the genuine defects found (F1-F14 repaired by `fix:` commits in /repo, K1/K2 kept as known findings); seeded/ holds 80 "
+                  "independently written source changes with the check output for each. No source hooks: the guard only names the environment "
+                  "variable the checks export.")
     for e in m["engines"]:
         e["serves_properties"] = sorted(CLAIMED)
     (V / "MANIFEST.json").write_text(json.dumps(m, indent=1) + "\n")
